@@ -1,6 +1,7 @@
 import TD.C18.Stream
 import TD.C18.Rle
 import TD.C18.RleDoc
+import TD.C18.Tree
 
 /-!
 # C18 — generated XML/XHTML/SVG is well-formed and carries the data unchanged
@@ -14,7 +15,8 @@ Hypotheses used below (defined in `TD.C18.Stream`):
 * `OpOk op` — what the caller owes for one call: element/attribute names are XML Names (the writer does not escape
   them), attribute keys are distinct (a Python dict), attribute values and `characters()` strings consist of
   characters XML can represent (`xmlChar`), `literal()` text is plain character data; nothing is required of
-  `comment()` text; `pI` and `charactersWithBr` are not covered by the theorems.
+  `comment()` text; a `pI()` string is an ASCII PI target alone or followed by one blank and arbitrary data (`PiOk`);
+  `charactersWithBr` is not covered by the theorems.
 * `shape d rd ops` — the calls make exactly one document element (XML requires it).
 -/
 namespace TD.C18
@@ -56,7 +58,7 @@ example : (document .xml "utf-8".toList [.start "Channel".toList [("units".toLis
         :: ("x < y".toList.map Event.chr ++ [.stop "Channel".toList])) := by decide
 
 /-- **Well-formedness of everything `XmlStream` writes.**  Any sequence of `startElement` / `characters` /
-`literal` / `comment` / `endElement` / `xmlSpacePreserve` calls that does not raise, respects `OpOk` and makes one
+`literal` / `comment` / `pI` / `endElement` / `xmlSpacePreserve` calls that does not raise, respects `OpOk` and makes one
 document element — with whatever is still open closed by `__exit__` — is a well-formed XML document
 (nesting invariant by induction over the call list; indentation included). -/
 theorem stream_wellformed (ops : List Op) (doc : Str)
@@ -97,6 +99,37 @@ example :
   · trivial
   · trivial
   · exact ⟨by decide, by decide, by decide⟩
+
+/-- a processing instruction with hostile data meets `PiOk`, and the document is well-formed -/
+example : PiOk "xml-stylesheet href=\"a?>b\" <&>".toList ∧
+    (document .xml "utf-8".toList [.start ['a'] [], .pi "xml-stylesheet href=\"a?>b\" <&>".toList, .pi "tgt".toList]).toOption.map wellFormed = some true :=
+  ⟨⟨"xml-stylesheet".toList, "href=\"a?>b\" <&>".toList, by decide, by decide, Or.inr (by decide)⟩, by decide⟩
+
+/-- **Whole-tree data preservation.**  Under the hypotheses of `stream_wellformed`, the specification parser decodes
+the document to the events the calls asked for (`specEvents ops`: for every `startElement` the name with the
+attributes in key order and their values unchanged, for every `characters`/`literal` its characters, for every
+`comment` its text, for every `pI` its target (PI data is written entity-encoded, which a parser does not decode:
+nothing is claimed about it), for every `endElement` — and for everything `__exit__` closes — the end tag), **with nothing
+changed** except what `PadRev` allows: a run "newline + spaces" immediately before a start tag or an end tag, and only
+where neither that element nor any enclosing element has character data so far (indentation never enters mixed
+content).  Both lists are compared most-recent-first (`.reverse`), which is how the relation is built up. -/
+theorem stream_decodes (ops : List Op) (doc : Str)
+    (hdoc : document .xml "utf-8".toList ops = .ok doc)
+    (hok : ∀ op ∈ ops, OpOk op) (hshape : shape 0 false ops = true) :
+    ∃ evs, parse doc = some evs ∧ PadRev [] (specEvents ops).reverse evs.reverse :=
+  stream_decodes_aux ops doc hdoc hok hshape
+
+/-- what `specEvents` and the parser give on a small nested sequence: the only differences are the indentation
+before `<b>` and before `</a>` (element `a` has no character data); nothing is inserted inside `b` after `x&y` -/
+example :
+    let ops : List Op := [.start "a".toList [("k".toList, "<\"&".toList)], .start "b".toList [], .chars "x&y".toList,
+      .start "c".toList [], .stop "c".toList]
+    specEvents ops = [.start "a".toList [("k".toList, "<\"&".toList)], .start "b".toList [], .chr 'x', .chr '&', .chr 'y',
+      .start "c".toList [], .stop "c".toList, .stop "b".toList, .stop "a".toList] ∧
+    (document .xml "utf-8".toList ops).toOption.bind parse =
+      some [.start "a".toList [("k".toList, "<\"&".toList)], .chr '\n', .chr ' ', .chr ' ', .start "b".toList [], .chr 'x', .chr '&', .chr 'y',
+      .start "c".toList [], .stop "c".toList, .stop "b".toList, .chr '\n', .stop "a".toList] := by
+  decide
 
 /-- **The same for `XhtmlStream`** (XML declaration, DOCTYPE, and the `html` element opened by `__enter__`):
 the calls are made inside `html`, hence `shape 1`. -/
